@@ -20,7 +20,7 @@ ASSUMPTIONS = [
     "user alphabets: total valid dictionaries with symbolic values (at least two distinct images asserted by the property)",
 ]
 OUTSIDE = ["sequence lengths above the bound", "window/step/word sizes above the bound", "K > 64 / seq_len > 10000 for the position row arithmetic"]
-NMAX = {"quick": 5, "thorough": 7}
+NMAX = {"quick": 5, "thorough": 6}
 KMAX = {"quick": 64, "thorough": 256}
 ITEM_TIMEOUT = {"quick": 900, "thorough": 3400}
 LCSIZES = {"quick": [2, 20], "thorough": [2, 3, 5, 8, 12, 20]}
